@@ -1,12 +1,17 @@
 package checks
 
 import (
+	"bufio"
 	"bytes"
 	"fmt"
+	"io"
 	"strings"
 	"time"
 
+	smtp "github.com/emersion/go-smtp"
+
 	"verif/h"
+	"verif/ref"
 )
 
 // C06: MaxMessageBytes bounds what a backend is handed and what is accepted.
@@ -288,7 +293,115 @@ func evalC06Huge(c C06HugeCase) *h.Finding {
 	return nil
 }
 
+// ---- every short message shape against every limit ----------------------------------------------
+
+// C06RawCase: a DATA message given octet by octet (so that it may contain end-marker look-alikes, bare
+// CR/LF and dots anywhere, in particular right at the limit) against a limit N.
+type C06RawCase struct {
+	Seam   string `json:"seam"` // reader | server
+	Mode   string `json:"mode"`
+	Stream []byte `json:"stream"` // body CRLF . CRLF
+	N      int64  `json:"n"`
+	Buf    int    `json:"buf"`
+	PerOct bool   `json:"per_octet"`
+	Show   string `json:"show"`
+}
+
+func evalC06Raw(c C06RawCase) (f *h.Finding) {
+	want, _, complete := ref.Unstuff(c.Stream)
+	if !complete {
+		return h.F("harness-error", "stream has no end marker")
+	}
+	over := int64(len(want)) > c.N
+	desc := fmt.Sprintf("message stream %q (%d octets after unstuffing) with limit %d, %s seam, mode %s, backend reads %d at a time, peroctet=%t", c.Stream, len(want), c.N, c.Seam, c.Mode, c.Buf, c.PerOct)
+	judge := func(got []byte, readErr string) *h.Finding {
+		if int64(len(got)) > c.N {
+			return h.F("c06-backend-read-too-much", "%s: backend read %d octets", desc, len(got))
+		}
+		if !over {
+			if readErr != "EOF" || !bytes.Equal(got, want) {
+				return h.F("c06-within-limit-differs", "%s: backend read %q then %s, want %q then EOF", desc, got, readErr, want)
+			}
+			return nil
+		}
+		if readErr == "EOF" {
+			return h.F("c06-over-limit-eof", "%s: the reader of an over-limit message reported a complete message (EOF) after %q", desc, got)
+		}
+		if !bytes.HasPrefix(want, got) {
+			return h.F("c06-over-limit-octets", "%s: backend read %q, which is no prefix of the message %q", desc, got, want)
+		}
+		return nil
+	}
+	if c.Seam == "reader" {
+		defer func() {
+			if p := recover(); p != nil {
+				f = h.F("c06-reader-panic", "%s: the reader panicked: %v", desc, p)
+			}
+		}()
+		segs := h.OneSeg(append([]byte(nil), c.Stream...))
+		if c.PerOct {
+			segs = h.PerOctet(append([]byte(nil), c.Stream...))
+		}
+		r := smtp.VerifNewDataReader(bufio.NewReader(&segReader{segs: segs}), c.N)
+		var got []byte
+		buf := make([]byte, c.Buf)
+		for steps := 0; ; steps++ {
+			n, err := r.Read(buf)
+			got = append(got, buf[:n]...)
+			if err != nil {
+				es := err.Error()
+				if err == io.EOF {
+					es = "EOF"
+				}
+				return judge(got, es)
+			}
+			if steps > 10*len(c.Stream)+100 {
+				return h.F("c06-reader-stuck", "%s: reader made no progress", desc)
+			}
+		}
+	}
+	cfg, be := modeConfig(c.Mode)
+	cfg.MaxMessageBytes = c.N
+	be.Plan = func(int) h.DataPlan { return h.DataPlan{Buf: c.Buf, Max: -1} }
+	in := []byte(hello(c.Mode) + "MAIL FROM:<ok@a.example>\r\nRCPT TO:<ok@b.example>\r\nDATA\r\n")
+	in = append(in, c.Stream...)
+	in = append(in, "RCPT TO:<okprobe@x>\r\nNOOP\r\n"...)
+	segs := h.OneSeg(in)
+	if c.PerOct {
+		segs = h.PerOctet(in)
+	}
+	o := h.RunS(cfg, be, segs, h.TermEOF)
+	if f := o.Sanity("c06", desc); f != nil {
+		return f
+	}
+	if o.ParseErr != nil {
+		return h.F("c06-bad-wire", "%s: %v", desc, o.ParseErr)
+	}
+	nData := 0
+	for _, e := range o.Trace {
+		if e.Kind == "Data" || e.Kind == "LMTPData" {
+			nData++
+			if f := judge(e.Body, e.ReadErr); f != nil {
+				return f
+			}
+		}
+		if e.Kind == "Rcpt" && e.Arg == "okprobe@x" || e.Kind == "Mail" && e.Arg != "ok@a.example" {
+			return h.F("c06-not-discarded", "%s: after the final reply the transaction is still open or message octets were executed: %s", desc, h.Calls(o.Trace))
+		}
+	}
+	final := 250
+	if over {
+		final = 552
+	}
+	// 220 250 250 250 354 final 5xx(RCPT outside a transaction) 250
+	if nData != 1 || len(o.Replies) != 8 || o.Replies[4].Code != 354 || o.Replies[5].Code != final || o.Replies[6].Class() != 5 || o.Replies[7].Code != 250 {
+		return h.F("c06-data-reply", "%s: %d deliveries, replies %s, want one delivery and 220 250 250 250 354 %d 5xx 250", desc, nData, o.Codes(), final)
+	}
+	return nil
+}
+
 func init() {
+	h.RegisterReplayer("c06-raw", evalC06Raw)
 	h.RegisterReplayer("c06", evalC06)
 	h.RegisterReplayer("c06-huge", evalC06Huge)
 }
@@ -317,7 +430,7 @@ func C06(tier string) int {
 	if tier == "thorough" {
 		Ns = []int64{1, 2, 3, 5, 8, 13, 64, 4096, 4097}
 	}
-	run.Rule = fmt.Sprintf("limits N in %v x message sizes N-2..N+2 and 4N x {DATA (plain and dot-stuffed lines), every division into <=3 BDAT chunks incl. empty ones} x backend read sizes {1,3,N,4096} x {one segment, one octet per segment} x {SMTP, LMTP, LMTP per-recipient}; MAIL SIZE=s for s in {0,1,N-1,N,N+1,10N} for N and for no limit; BDAT with a declared size at the integer boundaries (2^32-1, 2^32, 2^63-1, 2^63, 2^64-100, 2^64-1, 2^64, 10^23) as first or second chunk, with and without LAST, followed by an over-limit LAST chunk. Distinct by construction; non-trivial = size within 2 of the limit or above it. Oracle: backend octets <= N; over the limit: reader fails (no EOF), 552, probe RCPT refused; within: observation identical to the same conversation on a server without limit (differential).", Ns)
+	run.Rule = fmt.Sprintf("limits N in %v x message sizes N-2..N+2 and 4N x {DATA (plain and dot-stuffed lines), every division into <=3 BDAT chunks incl. empty ones} x backend read sizes {1,3,N,4096} x {one segment, one octet per segment} x {SMTP, LMTP, LMTP per-recipient}; MAIL SIZE=s for s in {0,1,N-1,N,N+1,10N} for N and for no limit; BDAT with a declared size at the integer boundaries (2^32-1, 2^32, 2^63-1, 2^63, 2^64-100, 2^64-1, 2^64, 10^23) as first or second chunk, with and without LAST, followed by an over-limit LAST chunk. Plus EVERY message body over the class alphabet {'.',CR,LF,'a'} of <=%d octets (reader seam: read sizes {1,2,3,4096}) / <=%d octets (full server path, modes %v, read sizes {1,4096}) x EVERY limit 1..size+1 x {one segment, one octet per segment}, so that every octet pattern (end-marker look-alikes, dots, bare CR/LF) sits at every offset relative to the limit. Distinct by construction; non-trivial = size within 2 of the limit or above it. Oracle: backend octets <= N; over the limit: reader fails (no EOF), 552, probe RCPT refused; within: observation identical to the same conversation on a server without limit (differential).", Ns, map[bool]int{false: 7, true: 9}[tier == "thorough"], map[bool]int{false: 5, true: 6}[tier == "thorough"], map[bool][]string{false: {"smtp"}, true: {"smtp", "lmtp", "lmtp-rcpt"}}[tier == "thorough"])
 	run.Assumptions = []string{"message size = octets after dot-unstuffing, incl. the CRLF in front of the end marker (RFC 1870)", "the backend reads the message to the end and returns the reader's error (a backend that stops early and returns nil claims success itself)", "declared SIZE values >= 2^32 are outside the quantifier"}
 	var cases []C06Case
 	seen := map[string]bool{}
@@ -420,6 +533,68 @@ func C06(tier string) int {
 		if i%97 == 0 {
 			run.Sample("huge-chunk", 2, c)
 		}
+	})
+	// every short message shape x every limit up to its size + 1
+	LR, LSrv := 7, 5
+	rawModes := []string{"smtp"}
+	if tier == "thorough" {
+		LR, LSrv = 9, 6
+		rawModes = modes
+	}
+	type rshard struct{ l, lo, hi int }
+	var rshards []rshard
+	for l := 0; l <= LR; l++ {
+		n := pow(4, l)
+		step := n / 64
+		if step < 1 {
+			step = n
+		}
+		for lo := 0; lo < n; lo += step {
+			rshards = append(rshards, rshard{l, lo, min(lo+step, n)})
+		}
+	}
+	h.ParallelFor(len(rshards), func(si int) {
+		sh := rshards[si]
+		out := map[string]int64{}
+		for i := sh.lo; i < sh.hi; i++ {
+			if i%64 == 0 && run.Expired() {
+				break
+			}
+			body := nthString(c01Alphabet, sh.l, i)
+			stream := append(append([]byte(nil), body...), "\r\n.\r\n"...)
+			want, rest, _ := ref.Unstuff(stream)
+			if len(rest) > 0 {
+				continue // the body contains an end marker itself: the same message as a shorter body
+			}
+			for N := int64(1); N <= int64(len(want))+1; N++ {
+				var cs []C06RawCase
+				for _, per := range []bool{false, true} {
+					for _, buf := range []int{1, 2, 3, 4096} {
+						cs = append(cs, C06RawCase{Seam: "reader", Mode: "smtp", Stream: stream, N: N, Buf: buf, PerOct: per})
+					}
+					if sh.l <= LSrv {
+						for _, mode := range rawModes {
+							for _, buf := range []int{1, 4096} {
+								cs = append(cs, C06RawCase{Seam: "server", Mode: mode, Stream: stream, N: N, Buf: buf, PerOct: per})
+							}
+						}
+					}
+				}
+				for _, c := range cs {
+					f := evalC06Raw(c)
+					run.Eval(N >= int64(len(want))-2)
+					if f != nil {
+						c.Show = fmt.Sprintf("%q", stream)
+						cc := c
+						run.Violate("c06-raw", cc, f, func() *h.Finding { return evalC06Raw(cc) })
+						out["violation:"+f.Sig]++
+					} else {
+						out[fmt.Sprintf("raw-%s over=%t", c.Seam, int64(len(want)) > N)]++
+					}
+				}
+			}
+		}
+		run.Outcomes(out)
 	})
 	return run.Finish()
 }
